@@ -141,9 +141,15 @@ class Unit:
                     o.detail = 'kani status=%s without a failed check (timeout / out of memory / unwinding)' % h['status']
                 else:
                     descs = sorted(set((c['description'] or '') for c in h['failed']))
-                    ARTIFACT = ('free argument', 'double free', 'rust_dealloc', 'dereference failure', 'pointer NULL', 'pointer invalid', 'memory leak', 'deallocated dynamic object')
+                    ARTIFACT = ('free argument', 'double free', 'rust_dealloc', 'dereference failure', 'pointer NULL', 'pointer invalid', 'memory leak', 'deallocated dynamic object',
+                                'unallocated memory', 'Offset in bytes', 'Offset result', 'Offset value', 'same allocation', 'Rust intrinsic assumption', 'pointer to')
                     real = [x for x in descs if not any(a in x for a in ARTIFACT) and 'unwinding' not in x]
-                    if not real and any(any(a in x for a in ARTIFACT) for x in descs):
+                    if any('unwinding assertion' in x for x in descs):
+                        # a loop was cut off: every other check of this harness is then meaningless (CBMC continues past the bound
+                        # with unconstrained state), so nothing it reports is a violation
+                        o.status = 'undecided'
+                        o.detail = 'unwinding assertion failed: bound too small; other reported checks are not meaningful'
+                    elif not real and any(any(a in x for a in ARTIFACT) for x in descs):
                         # CBMC memory-model checks inside std on safe code (strum has no unsafe): a tool artifact, never an alarm
                         o.status = 'undecided'
                         o.detail = 'only CBMC memory-model checks failed (tool artifact on safe code): ' + '; '.join(descs)[:300]
